@@ -38,7 +38,7 @@ import (
 )
 
 var (
-	noCacheReg = regexp.MustCompile(`no-cache|no-store|private`)
+	noCacheReg = regexp.MustCompile(`(?i)no-cache|no-store|private`)
 	sMaxAgeReg = regexp.MustCompile(`s-maxage=(\d+)`)
 	maxAgeReg  = regexp.MustCompile(`max-age=(\d+)`)
 )
